@@ -1072,7 +1072,17 @@ pub fn gen_sequence(rng: &mut Rng, corpus: &[(String, std::path::PathBuf)], foot
     let mut ops = Vec::new();
     let n_faults = rng.range(1, 5);
     for _ in 0..n_faults {
-        let op = match rng.weighted(&[3, 3, 3, 3, 2, 2, 2, 1, 2, 4, 1]) {
+        let op = match rng.weighted(&[3, 3, 3, 3, 2, 2, 2, 1, 2, 4, 1, 2]) {
+            11 => {
+                // not damage at all: the zone is replaced by a sibling with the same transition
+                // instants but a re-indexed (possibly smaller) type table, or one differing in a
+                // single footer component - whatever the reader remembered about the old file
+                // must not be applied to the new one
+                match tzref::parse_tzif(&base).ok().and_then(|z| tzsim::sibling_of(&z, rng)) {
+                    Some(b) => Op::Replace(b),
+                    None => Op::Replace(pick_base(rng, corpus)),
+                }
+            }
             0 => Op::Truncate(rng.usize(cur_len + 1)),
             1 => {
                 let new = pick_base(rng, corpus);
@@ -1149,6 +1159,16 @@ pub fn gen_sequence(rng: &mut Rng, corpus: &[(String, std::path::PathBuf)], foot
             } else {
                 ops.push(gen_lookup(rng, &bat));
             }
+        }
+    }
+    // one sequence in sixty ends with a long run of lookups creeping through time on whatever is
+    // stored now (a daemon asking every few seconds): counters and caches inside the reader
+    if rng.chance(1, 60) {
+        let mut t = rng.range(-1_000_000_000, tzsim::MAX_CLOCK - 100_000_000);
+        let step = *rng.pick(&[1i64, 30, 600, 86_400]);
+        for _ in 0..rng.range(600, 1500) {
+            ops.push(Op::LookupDirect { t });
+            t += rng.range(1, step.max(2));
         }
     }
     // recovery: faults stop, an intact file is installed, the process keeps looking up
